@@ -30,6 +30,11 @@ cases={
 "shapechan": (ctl("shapechan","type B struct {\n\tName string\n\tEvents chan int\n}\n\n// @Method(POST)\n// @Route(/x)\n// @Body(b)\nfunc (c *C) M(b B) error { return nil }\n"),"any"),
 "shaperecursive": (ctl("shaperecursive","type N struct {\n\tName string\n\tNext *N\n\tKids []N\n\tIndex map[string][]N\n}\n\n// @Method(POST)\n// @Route(/x)\n// @Body(b)\nfunc (c *C) M(b N) (N, error) { return b, nil }\n"),"any"),
 "shapeiface": (ctl("shapeiface","type B struct {\n\tAny interface{}\n\tFn func()\n\tArr [3]int\n\tPtr **string\n}\n\n// @Method(POST)\n// @Route(/x)\n// @Body(b)\nfunc (c *C) M(b B) error { return nil }\n"),"any"),
+"pathandquery": (ctl("pathandquery","// @Method(GET)\n// @Route(/x/{id})\n// @Path(id)\n// @Query(id)\nfunc (c *C) M(id string) error { return nil }\n"),"reject"),
+"pathandheader": (ctl("pathandheader","// @Method(GET)\n// @Route(/x/{id})\n// @Header(id)\n// @Path(id)\nfunc (c *C) M(id string) error { return nil }\n"),"reject"),
+"queryandheader": (ctl("queryandheader","// @Method(GET)\n// @Route(/x)\n// @Query(v)\n// @Header(v)\nfunc (c *C) M(v string) error { return nil }\n"),"reject"),
+"wrappedparams": (ctl("wrappedparams","// @Method(GET)\n// @Route(/x)\n// @Query(firstName)\nfunc (c *C) Search(firstName,\n\tlastName string,\n) error {\n\treturn nil\n}\n"),"reject"),
+"wrappedok": (ctl("wrappedok","// @Method(GET)\n// @Route(/x)\n// @Query(firstName)\n// @Query(lastName)\nfunc (c *C) Search(\n\tfirstName string,\n\tlastName struct {\n\t\tA string\n\t},\n) (\n\tstring,\n\terror,\n) {\n\treturn \"\", nil\n}\n"),"reject"),
 "warnonly": (ctl("warnonly","// @Method(GET)\n// @Route(/x)\nfunc (c *C) M() error { return nil }\n\n// @Method(GET)\n// @Route(/x)\nfunc (c *C) M2() error { return nil }\n"),"accept"),
 }
 for n,(src,exp) in cases.items():
